@@ -2160,6 +2160,247 @@ fn gen_intrinsic_compositions() -> Vec<Case> {
     out
 }
 
+// ---------------------------------------------------------------------------------------------
+// declaration layouts: every arrangement of k root-level definitions over namespace blocks (reopened, nested, adjacent,
+// separated by definitions of the enclosing scope or by another namespace) in which the order of the definitions decides
+// what the program computes, because static globals are initialised in declaration order by initialisers that have side
+// effects (a call that bumps a counter) or read what an earlier initialiser's call modified.
+
+/// scopes a definition can be placed in
+const LAYOUT_SCOPES: [&[&str]; 5] = [&[], &["N"], &["M"], &["N", "I"], &["M", "I"]];
+
+#[derive(Clone, Copy, PartialEq, Eq, Debug)]
+enum ItemKind {
+    /// `static int gK = next();` — the initialiser has a side effect
+    GlobalCall,
+    /// `static int gK = counter * 10 + K;` — the initialiser reads what earlier initialisers modified
+    GlobalRead,
+    /// `static int gK = <nearest earlier global, by qualified name> * 2 + next();` — reads an earlier definition of any scope
+    GlobalDep,
+    /// definitions of other kinds standing between (or next to) the globals; the observers use each of them by name
+    Function,
+    Struct,
+    Enum,
+    Const,
+}
+
+const LAYOUT_KINDS: [ItemKind; 7] = [ItemKind::GlobalCall, ItemKind::GlobalRead, ItemKind::GlobalDep, ItemKind::Function, ItemKind::Struct, ItemKind::Enum, ItemKind::Const];
+
+enum LayoutNode {
+    Item(usize),
+    Ns(&'static str, Vec<LayoutNode>),
+}
+
+/// block tree of a layout: `items[i] = (scope, kind)`; `keep[i]` = how many of the namespace blocks shared by item i and
+/// item i+1 stay open between the two (0 = everything is closed and opened again)
+fn layout_tree(items: &[(usize, ItemKind)], keep: &[usize]) -> Vec<LayoutNode> {
+    fn insert(level: &mut Vec<LayoutNode>, path: &[&'static str], fresh_from: usize, depth: usize, item: usize) {
+        if path.is_empty() {
+            level.push(LayoutNode::Item(item));
+            return;
+        }
+        // continue the block that is still open (always the last node of the level), or open a new one
+        let reuse = depth < fresh_from && matches!(level.last(), Some(LayoutNode::Ns(n, _)) if *n == path[0]);
+        if !reuse {
+            level.push(LayoutNode::Ns(path[0], Vec::new()));
+        }
+        if let Some(LayoutNode::Ns(_, inner)) = level.last_mut() {
+            insert(inner, &path[1..], fresh_from, depth + 1, item);
+        }
+    }
+    let mut root: Vec<LayoutNode> = Vec::new();
+    let mut prev: &[&str] = &[];
+    for (i, (scope, _)) in items.iter().enumerate() {
+        let path: &[&'static str] = LAYOUT_SCOPES[*scope];
+        let common = prev.iter().zip(path.iter()).take_while(|(a, b)| a == b).count();
+        let common = if i > 0 { common.min(keep[i - 1]) } else { 0 };
+        insert(&mut root, path, common, 0, i);
+        prev = path;
+    }
+    root
+}
+
+fn is_layout_global(kind: ItemKind) -> bool {
+    matches!(kind, ItemKind::GlobalCall | ItemKind::GlobalRead | ItemKind::GlobalDep)
+}
+
+fn layout_qualified(items: &[(usize, ItemKind)], i: usize, name: String) -> String {
+    let mut s = String::new();
+    for p in LAYOUT_SCOPES[items[i].0] {
+        s.push_str(p);
+        s.push_str("::");
+    }
+    s + &name
+}
+
+fn layout_item_text(i: usize, items: &[(usize, ItemKind)]) -> String {
+    let k = i + 1;
+    let kind = items[i].1;
+    match kind {
+        ItemKind::GlobalCall => format!("static int g{i} = next();"),
+        ItemKind::GlobalDep => match (0..i).rev().find(|j| is_layout_global(items[*j].1)) {
+            Some(j) => format!("static int g{i} = {} * 2 + next();", layout_qualified(items, j, format!("g{j}"))),
+            None => format!("static int g{i} = counter * 2 + next();"),
+        },
+        ItemKind::GlobalRead => format!("static int g{i} = counter * 10 + {k};"),
+        ItemKind::Function => format!("int h{i}(int x) {{ return x * 2 + {k}; }}"),
+        ItemKind::Struct => format!("struct S{i} {{ int m; int get() {{ return m + {k}; }} }};"),
+        ItemKind::Enum => format!("enum E{i} {{ E{i}a = {k}, E{i}b }};"),
+        ItemKind::Const => format!("static const int c{i} = {k} + 3;"),
+    }
+}
+
+fn layout_render(nodes: &[LayoutNode], items: &[(usize, ItemKind)], out: &mut String) {
+    for n in nodes {
+        match n {
+            LayoutNode::Item(i) => {
+                out.push_str(&layout_item_text(*i, items));
+                out.push(' ');
+            }
+            LayoutNode::Ns(name, inner) => {
+                out.push_str(&format!("namespace {} {{ ", name));
+                layout_render(inner, items, out);
+                out.push_str("} ");
+            }
+        }
+    }
+}
+
+/// the most involved arrangement of namespace blocks in a layout (one signature class per arrangement)
+fn layout_class(nodes: &[LayoutNode]) -> u8 {
+    // 0 no namespace, 1 single blocks, 2 nested blocks, 3 adjacent blocks of one namespace,
+    // 4 namespace reopened after another namespace, 5 namespace reopened after definitions of the enclosing scope
+    let mut class = 0u8;
+    for (i, n) in nodes.iter().enumerate() {
+        if let LayoutNode::Ns(name, inner) = n {
+            class = class.max(1);
+            if inner.iter().any(|x| matches!(x, LayoutNode::Ns(..))) {
+                class = class.max(2);
+            }
+            class = class.max(layout_class(inner));
+            // the previous block of the same namespace at this level and what lies in between
+            if let Some(p) = nodes[..i].iter().rposition(|x| matches!(x, LayoutNode::Ns(m, _) if m == name)) {
+                let between = &nodes[p + 1..i];
+                let c = if between.is_empty() {
+                    3
+                } else if between.iter().any(|x| matches!(x, LayoutNode::Ns(..))) {
+                    4
+                } else {
+                    5
+                };
+                class = class.max(c);
+            }
+        }
+    }
+    class
+}
+
+const LAYOUT_CLASS_NAMES: [&str; 6] = ["no-namespace", "single-blocks", "nested-blocks", "adjacent-blocks", "reopened-after-namespace", "reopened-after-definitions"];
+
+fn layout_program(items: &[(usize, ItemKind)], keep: &[usize]) -> Space {
+    let tree = layout_tree(items, keep);
+    let mut prelude = String::from("static int counter = 0;\nint next() { return ++counter; }\n");
+    layout_render(&tree, items, &mut prelude);
+    prelude.push('\n');
+    let qual = |i: usize, name: String| -> String { layout_qualified(items, i, name) };
+    // observer 1: every definition by its qualified name, position-weighted (Horner)
+    let mut body = String::from("int r = a; ");
+    for (i, (_, kind)) in items.iter().enumerate() {
+        match kind {
+            ItemKind::GlobalCall | ItemKind::GlobalRead | ItemKind::GlobalDep => body.push_str(&format!("r = r * 7 + {}; ", qual(i, format!("g{i}")))),
+            ItemKind::Function => body.push_str(&format!("r = r * 7 + {}(a); ", qual(i, format!("h{i}")))),
+            ItemKind::Struct => body.push_str(&format!("{} s{i}; s{i}.m = a; r = r * 7 + s{i}.get(); ", qual(i, format!("S{i}")))),
+            ItemKind::Enum => body.push_str(&format!("r = r * 7 + (int){}; ", qual(i, format!("E{i}b")))),
+            ItemKind::Const => body.push_str(&format!("r = r * 7 + {}; ", qual(i, format!("c{i}")))),
+        }
+    }
+    body.push_str("return r;");
+    // the class names the arrangement the exporter sees: the typed module is flat, every definition carries its namespace,
+    // so blocks that the source closes and reopens without anything in between are one block to the exporter
+    let shared: Vec<usize> = (1..items.len()).map(|i| LAYOUT_SCOPES[items[i - 1].0].len().min(LAYOUT_SCOPES[items[i].0].len())).collect();
+    let tag = format!("decl|init-order|{}", LAYOUT_CLASS_NAMES[layout_class(&layout_tree(items, &shared)) as usize]);
+    let mut cases = vec![Case { src: format!("int @(int a) {{ {} }}", body), tag: tag.clone() }];
+    // observer 2: the counter after initialisation, and one more step of it
+    cases.push(Case { src: "int @(int a) { int r = counter * 100; r += next() * 10; return r + counter + a; }".into(), tag: tag.clone() });
+    // observer 3: writes through the qualified names (the globals stay distinct objects)
+    let gs: Vec<usize> = (0..items.len()).filter(|i| is_layout_global(items[*i].1)).collect();
+    if !gs.is_empty() {
+        let mut b = String::new();
+        for (n, i) in gs.iter().enumerate() {
+            b.push_str(&format!("{} += a * {}; ", qual(*i, format!("g{i}")), n + 2));
+        }
+        b.push_str(&format!("return {};", qual(gs[0], format!("g{}", gs[0]))));
+        cases.push(Case { src: format!("int @(int a) {{ {} }}", b), tag });
+    }
+    let name: String = items.iter().map(|(s, k)| format!("{}{}", s, LAYOUT_KINDS.iter().position(|x| x == k).unwrap_or(0))).collect::<Vec<_>>().join("-");
+    Space { name: format!("layout_{}_{}", name, keep.iter().map(|b| b.to_string()).collect::<String>()), prelude, cases }
+}
+
+/// all layouts of exactly `k` definitions whose kinds come from `kinds`; every placement over the scopes; every choice of
+/// keeping / closing the shared namespace blocks between neighbours (only where there is a shared block)
+fn layouts_of(k: usize, kinds: &[ItemKind], with_splits: bool, out: &mut Vec<Space>) {
+    let ns = LAYOUT_SCOPES.len() as u64;
+    let nk = kinds.len() as u64;
+    let radices: Vec<u64> = (0..k).flat_map(|_| [nk, ns]).collect();
+    let total: u64 = radices.iter().product();
+    let mut d = Vec::new();
+    for idx in 0..total {
+        util::decode(idx, &radices, &mut d);
+        let items: Vec<(usize, ItemKind)> = (0..k).map(|i| (d[2 * i + 1] as usize, kinds[d[2 * i] as usize])).collect();
+        // order matters only when at least one initialiser observes it
+        if !items.iter().any(|(_, kind)| is_layout_global(*kind)) {
+            continue;
+        }
+        // between neighbours every number of their shared namespace blocks can stay open
+        let shared: Vec<u64> = (0..k.saturating_sub(1))
+            .map(|i| {
+                let (a, b) = (LAYOUT_SCOPES[items[i].0], LAYOUT_SCOPES[items[i + 1].0]);
+                a.iter().zip(b.iter()).take_while(|(x, y)| x == y).count() as u64
+            })
+            .collect();
+        if with_splits {
+            let rad: Vec<u64> = shared.iter().map(|c| c + 1).collect();
+            let n: u64 = rad.iter().product();
+            let mut e = Vec::new();
+            for code in 0..n {
+                util::decode(code, &rad, &mut e);
+                // simplest first: digit 0 = all shared blocks stay open
+                let keep: Vec<usize> = e.iter().zip(shared.iter()).map(|(x, c)| (*c - *x) as usize).collect();
+                out.push(layout_program(&items, &keep));
+            }
+        } else {
+            let keep: Vec<usize> = shared.iter().map(|c| *c as usize).collect();
+            out.push(layout_program(&items, &keep));
+        }
+    }
+}
+
+/// declaration layouts with order-dependent static initialisers (C01 only)
+pub fn layout_programs(ctx: &Ctx) -> Vec<Space> {
+    use ItemKind::*;
+    let mut v = Vec::new();
+    if ctx.quick() {
+        // every kind up to 2 definitions; 3 definitions over two order-carrying kinds and two in-between kinds
+        // (every scope and every block choice)
+        for k in 1..=2 {
+            layouts_of(k, &LAYOUT_KINDS, true, &mut v);
+        }
+        layouts_of(3, &[GlobalCall, GlobalDep, Function, Struct], true, &mut v);
+        // longer sequences: one order-carrying kind and one in-between kind
+        layouts_of(4, &[GlobalCall, Function], false, &mut v);
+        layouts_of(5, &[GlobalCall], false, &mut v);
+    } else {
+        for k in 1..=3 {
+            layouts_of(k, &LAYOUT_KINDS, true, &mut v);
+        }
+        layouts_of(4, &[GlobalCall, GlobalRead, GlobalDep, Function], false, &mut v);
+        layouts_of(4, &[GlobalCall, Function], true, &mut v);
+        layouts_of(5, &[GlobalCall, Function], false, &mut v);
+        layouts_of(6, &[GlobalCall], false, &mut v);
+    }
+    v
+}
+
 /// the small whole programs shared by C01 and C02
 pub fn program_spaces(ctx: &Ctx) -> Vec<Space> {
     let mut v = global_alias_programs();
@@ -2247,6 +2488,8 @@ pub fn run(ctx: &Ctx) -> i32 {
     let mut rep = Report::new("exploration");
     rep.rule = "a function counts when the type checker accepted it, the exporter produced text, the text was re-read without the type checker and at least one argument tuple was evaluated by both interpreters; distinct = different (prelude, function source, target)".into();
     let opts = Opts { cap: 100, verbose: false, only_args: None };
+    let layouts = layout_programs(ctx);
+    run_programs(ctx, "declaration_layouts", &layouts, &HLSL_BACKENDS, &opts, &mut rep);
     for sp in spaces(ctx) {
         let n_units = sp.cases.len().div_ceil(UNIT) as u64;
         let r = run_par(ctx, n_units, 1, |u, acc| {
@@ -2274,6 +2517,7 @@ pub fn run(ctx: &Ctx) -> i32 {
                 "expression contexts: initialiser, later declarator, aggregate elements, call / constructor arguments, subscript, return, if/while/do/for conditions, for init / increment, switch selector, expression statement, default argument, global initialiser",
                 "statements: expression, declarations with 1-3 declarators, nested blocks with shadowing, if / if-else / dangling else, for with every init form, while, do-while, switch with fall-through / default first / blocks / inside loops, break, continue, early return, return in loops, statement attributes",
                 "declarations: overload sets, function templates instantiated at two types, default arguments, struct methods reading and writing members, namespaces (nested), enums with explicit values, static const, static globals (scalar, vector, array) mutated across calls, forward declarations, struct and array parameters (in, out, inout), out/inout parameters incl. aliasing of one variable to an in and an out parameter",
+                "declaration layouts: every sequence of up to 3 root-level definitions (quick: all kinds up to 2, four kinds at 3; static global initialised by a counter-bumping call / by reading the counter / from the nearest earlier global plus a call; function; struct with method; thorough also enum and static const) x every placement over the scopes {global, N, M, N::I, M::I} x every choice of how many shared namespace blocks stay open between neighbours (so: reopened namespaces after definitions of the enclosing scope, after another namespace, adjacent blocks, nested blocks, equal inner names under different parents); sequences of 4 (quick: call-initialised global and function; thorough: the three global kinds and function) and of 5 / 6 definitions over fewer kinds; observed through every definition by qualified name, the counter, and writes to every global",
                 "intrinsics compared for bits: abs min max clamp saturate floor ceil trunc round frac fmod sqrt rsqrt rcp sign step lerp smoothstep dot cross length normalize distance reflect any all select and or countbits reversebits firstbithigh firstbitlow asint asuint asfloat f16tof32 f32tof16 isnan isinf isfinite; transcendental (sin cos tan asin acos atan atan2 sinh cosh tanh exp exp2 log log2 log10 pow) compared for which function is called",
             ]
             .iter()
